@@ -526,18 +526,23 @@ func (s *sharedEntryAttributes) getRegularDeletes(deletes []DeleteEntry, aggrega
 			// so if we have an old and a new best cases (not "") and the names are different,
 			// all the old to the deletion list
 			if oldBestCaseName != "" && newBestCaseName != "" && oldBestCaseName != newBestCaseName {
-				// try fetching the case from the childs
-				oldBestCaseEntry, exists := s.childs.GetEntry(oldBestCaseName)
-				if exists {
-					deletes = append(deletes, oldBestCaseEntry)
-				} else {
-					// it might be that the child is not loaded into the tree, but just considered from the treecontext cache for the choice/case resolution
-					// if so, we create and return the DeleteEntryImpl struct
-					path, err := s.SdcpbPath()
-					if err != nil {
-						return nil, err
+				// the elements that make up the old best case need to be deleted,
+				// the name of a case is not necessarily the name of a child.
+				for _, elemName := range v.getCaseElementNames(oldBestCaseName) {
+					// try fetching the element from the childs
+					oldBestCaseEntry, exists := s.childs.GetEntry(elemName)
+					if exists {
+						deletes = append(deletes, oldBestCaseEntry)
+					} else {
+						// it might be that the child is not loaded into the tree, but just considered from the treecontext cache for the choice/case resolution
+						// if so, we create and return the DeleteEntryImpl struct
+						path, err := s.SdcpbPath()
+						if err != nil {
+							return nil, err
+						}
+						path.Elem = append(path.Elem, &sdcpb.PathElem{Name: elemName})
+						deletes = append(deletes, NewDeleteEntryImpl(path, append(s.Path(), elemName)))
 					}
-					deletes = append(deletes, NewDeleteEntryImpl(path, append(s.Path(), oldBestCaseName)))
 				}
 			}
 		}
